@@ -65,7 +65,8 @@ def make_history(rng, nobj):
         elif r < 0.66: h.append((o, 'parse+tree_to_xml', root, gen.any_text(rng, root)))
         elif r < 0.74: h.append((o, 'xml_from_dict_bad', rng.randrange(len(BAD_DICTS))))
         elif r < 0.82: h.append((o, 'xml_from_dict_good', root, gen.gen_doc(rng, root)))
-        elif r < 0.90: h.append((o, 'rewrite', rng.randrange(1 << 30)))
+        elif r < 0.87: h.append((o, 'rewrite', rng.randrange(1 << 30)))
+        elif r < 0.92: h.append((o, 'rewrite_other_ns', rng.randrange(1 << 30)))
         else: h.append((o, 'unparse', root, gen.gen_doc(rng, root)))
     return h
 
@@ -89,6 +90,11 @@ def run_history(args):
             elif call[1] == 'rewrite':
                 t = xmlsx.from_sx(xmlsx.norm_sx(gen.gen_akn_tree(random.Random(call[2]), maxdepth=3)))
                 p.generator.ids.rewrite_all_eids(t, 'zz')
+            elif call[1] == 'rewrite_other_ns':
+                # an Akoma Ntoso 2.0 (or namespace-less) document rewritten with the same object
+                ns = random.Random(call[2]).choice(['http://www.akomantoso.org/2.0', 'urn:x'])
+                t = xmlsx.from_sx(xmlsx.norm_sx(gen.gen_akn_tree(random.Random(call[2]), maxdepth=3)), ns)
+                p.generator.ids.rewrite_all_eids(t)
             elif call[1] == 'unparse':
                 p.unparse(p.parse_to_xml(call[3], call[2]))
         except Exception:
